@@ -154,6 +154,10 @@ def curated():
     add({"Root": [rule("a", act="push", state="S1"), rule("b")], "S1": [rule("b"), named("Oops", "")]})
     # a rule named like the end-of-input symbol is an ordinary rule with a type of its own
     add({"Root": [named("EOF", "b"), rule("a", act="push", state="S1"), rule("(?s).")], "S1": [named("EOF", "b", "pop"), rule("a")]})
+    # two entries into a back-reference state whose sub-groups are equal (both non-participating) while the whole matches differ:
+    # \0 has to be the entering match of THIS entry (a regexp cached for the other one must not be used)
+    add({"Root": [named("Open", "[ab](c)?", "push", "S1"), rule("c")], "S1": [named("Whole", "\\0", "pop"), rule("(?s).")]})
+    add({"Root": [named("Open", "(c)?[ab]+", "push", "S1"), rule("c")], "S1": [named("Whole", "\\0c", "pop"), named("Sub", "\\1"), rule("(?s).")]})
     return K
 
 
